@@ -22,6 +22,7 @@ import (
 // the caller.
 
 type held struct {
+	raw    []byte // a body returned by Recv (the []byte form) instead of a message
 	m      *mangos.Message
 	body   []byte
 	header []byte
@@ -53,12 +54,34 @@ func (r *retainer) keep(m *mangos.Message, from string, keepFor int) {
 	r.held = append(r.held, &held{m: m, body: append([]byte(nil), m.Body...), header: append([]byte(nil), m.Header...), from: from, freeAt: r.tick + keepFor})
 }
 
+// keepBytes retains a body returned by Recv (the []byte form of the API): it
+// is the application's as much as a message is.
+func (r *retainer) keepBytes(b []byte, from string, keepFor int) {
+	r.n++
+	if r.n%3 == 1 {
+		for i := range b {
+			b[i] ^= 0x20
+		}
+	}
+	r.held = append(r.held, &held{raw: b, body: append([]byte(nil), b...), from: from, freeAt: r.tick + keepFor})
+}
+
 // check verifies every retained message against its snapshot, and frees the
 // ones whose time has come.
 func (r *retainer) check() bool {
 	r.tick++
 	keep := r.held[:0]
 	for _, h := range r.held {
+		if h.m == nil {
+			if !bytes.Equal(h.raw, h.body) {
+				r.w.Failf("C17/received-body-changed:"+h.from, "a body returned by Recv on %s (%d bytes) changed while the application held it: %q -> %q (first difference at %d)", h.from, len(h.body), clip(h.body), clip(h.raw), firstDiff(h.raw, h.body))
+				return false
+			}
+			if h.freeAt > r.tick {
+				keep = append(keep, h)
+			}
+			continue
+		}
 		if !bytes.Equal(h.m.Body, h.body) || !bytes.Equal(h.m.Header, h.header) {
 			r.w.Failf("C17/received-message-changed:"+h.from, "a message returned by RecvMsg on %s changed while the application held it: body %q -> %q, header %x -> %x", h.from, clip(h.body), clip(h.m.Body), h.header, h.m.Header)
 			return false
@@ -121,9 +144,10 @@ func c17Run(w *W) {
 	var keptRefs []*held // messages of which the sending application kept a reference of its own
 	var sender mangos.Socket
 	type rcv struct {
-		name string
-		recv func() (*mangos.Message, error)
-		s    mangos.Socket
+		name  string
+		recv  func() (*mangos.Message, error)
+		s     mangos.Socket
+		recvB func() ([]byte, error)
 	}
 	var rcvs []rcv
 	addr := w.Addr(tran)
@@ -190,14 +214,14 @@ func c17Run(w *W) {
 		if r == stalled {
 			continue
 		}
-		rcvs = append(rcvs, rcv{fmt.Sprintf("%s%d", rkind, i), r.RecvMsg, r})
+		rcvs = append(rcvs, rcv{fmt.Sprintf("%s%d", rkind, i), r.RecvMsg, r, r.Recv})
 		// extra contexts share the same publications
 		if (rkind == "sub") && w.Choose(simrt.SShape, 2) == 0 {
 			c, err := r.OpenContext()
 			if err == nil {
 				_ = c.SetOption(mangos.OptionSubscribe, "")
 				_ = c.SetOption(mangos.OptionRecvDeadline, 2*time.Millisecond)
-				rcvs = append(rcvs, rcv{fmt.Sprintf("%s%d.ctx", rkind, i), c.RecvMsg, r})
+				rcvs = append(rcvs, rcv{fmt.Sprintf("%s%d.ctx", rkind, i), c.RecvMsg, r, c.Recv})
 			}
 		}
 	}
@@ -239,6 +263,11 @@ func c17Run(w *W) {
 			w.Probe("stalled-receiver-closed-mid-traffic")
 		}
 		sz := c17Sizes[w.Choose(simrt.SProg, len(c17Sizes))]
+		if w.Choose(simrt.SProg, 10) == 0 {
+			// around the largest pool class (total body = 65535 .. 65537)
+			sz = 65535 - len(fmt.Sprintf("m%d|", i)) + w.Choose(simrt.SProg, 3)
+			w.Probe("body-around-the-largest-pool-class")
+		}
 		body := patBody(fmt.Sprintf("m%d", i), sz)
 		m := mangos.NewMessage(len(body))
 		m.Body = append(m.Body, body...)
@@ -307,6 +336,25 @@ func c17Run(w *W) {
 		w.Settle()
 		for _, r := range rcvs {
 			for k := 0; k < 3; k++ {
+				if topo != "reqrep" && topo != "survey" && rkind != "xbus" && w.Choose(simrt.SProg, 4) == 0 {
+					// the []byte form of the API: the returned body is the
+					// application's own as well
+					bc := w.Do(r.name+".Recv", func() (interface{}, error) { return r.recvB() })
+					bc.Wait(10 * time.Millisecond)
+					w.Settle()
+					if !bc.Returned() || bc.Err != nil {
+						break
+					}
+					b := bc.Val.([]byte)
+					if !bytes.HasPrefix(b, []byte("m")) {
+						w.Failf("C17/garbage-delivered:"+r.name, "%s received %q", r.name, clip(b))
+						return
+					}
+					ret.keepBytes(b, r.name, 1+w.Choose(simrt.SProg, 6))
+					w.Delivery++
+					w.Probe("body-from-recv-retained")
+					continue
+				}
 				rc := w.Do(r.name+".RecvMsg", func() (interface{}, error) { return r.recv() })
 				rc.Wait(10 * time.Millisecond)
 				w.Settle()
@@ -448,6 +496,10 @@ func init() {
 	register(&Scenario{Name: "retained-request-ownership", Prop: "C17", Horizon: time.Hour, Weight: 2, Run: c04Stream})
 	register(&Scenario{Name: "shared-publication-ownership", Prop: "C17", Horizon: time.Hour, Weight: 2, Run: c06Stream})
 	register(&Scenario{Name: "shared-publication-contexts", Prop: "C17", Horizon: time.Hour, Weight: 3, Run: c06Sub})
+	// devices: raw sockets receive, re-send and release messages whose header
+	// was cut out of the body or grown by a routing word per hop, in the same
+	// process that allocates the next ones - the ledger judges
+	register(&Scenario{Name: "device-forwarding-ownership", Prop: "C17", Horizon: time.Hour, Weight: 2, Run: c09Chain})
 }
 
 // c17ReplyTimeout: REP / RESPONDENT / XREP with a send deadline and a
